@@ -42,6 +42,14 @@
 (* comparison, the keyword names of a call).  Whether a handler hands back *)
 (* the node object itself or builds a new one is not part of the meaning;  *)
 (* it is part of the algorithm (C05_Rebuild).                              *)
+(*                                                                         *)
+(* Round 7: the RESULT VALUES of the handlers are an input dimension of    *)
+(* memoisation.  "nil" is a combine mapper every handler of which returns  *)
+(* the same value that LOOKS LIKE NOTHING in Python (mk.val: None, 0,      *)
+(* False, the empty tuple); LooksNothing(r) is that notion for any result  *)
+(* (None / a falsy number / an empty set / an empty tuple).  A memoizing   *)
+(* mapper must keep such a result like any other: the only observation     *)
+(* that tells is the WORK DONE (handler runs per key).                     *)
 (***************************************************************************)
 EXTENDS C05_Keys
 
@@ -108,6 +116,12 @@ IntR(n)  == [rk |-> "tree", e |-> KI(n)]      \* a number is the tree Const
 NoneR    == [rk |-> "none"]
 ObjR(eq, e) == [rk |-> "obj", eq |-> eq, e |-> e]   \* a foreign object wrapping the tuple e
 ErrR(name) == [rk |-> "err", v |-> [k |-> "err", e |-> name, a |-> ""]]
+\* round 7: the value every handler of a "nil" mapper returns
+NilR(val) == CASE val = "none"  -> NoneR
+               [] val = "zero"  -> IntR(0)
+               [] val = "false" -> TreeR(K(BoolV(FALSE)))
+               [] val = "empty" -> TreeR(N("Tup", << >>))
+NilVals == << "none", "zero", "false", "empty" >>
 
 \* Python truthiness of a (mapped) expression, as primitives.py defines __bool__:
 \* a number is false iff it is zero; a one-child sum is its child, a product is false
@@ -120,6 +134,14 @@ Falsy(e) ==
       [] e.t = "Product" -> \E i \in 1..Len(e.c) : Falsy(e.c[i])
       [] e.t \in {"Quotient", "FloorDiv", "Remainder"} -> Falsy(e.a)
       [] e.t \in {"Tup", "List"} -> Len(e.c) = 0
+      [] OTHER -> FALSE
+
+\* round 7: a RESULT that looks like nothing in Python (None, or false in a truth test)
+LooksNone(r) == r.rk = "none"
+LooksNothing(r) ==
+    CASE r.rk = "none" -> TRUE
+      [] r.rk = "tree" -> Falsy(r.e)
+      [] r.rk = "set"  -> r.s = {}
       [] OTHER -> FALSE
 
 \* ---- which children a handler recurses into, in order ---------------------
@@ -178,6 +200,7 @@ BaseCombine(mk, e, a, rs) ==
                  THEN SetR({ e })
             ELSE SetR(SeqUnion(rs))
       [] mk.m = "walk" -> NoneR
+      [] mk.m = "nil" -> NilR(mk.val)
       [] mk.m = "probe" ->
             IF e.t = "Var" THEN ObjR(mk.eq, N("Tup", << RenamedLeaf(e, a) >>))
             ELSE IF e.t = "Const" THEN ObjR(mk.eq, N("Tup", << e >>))
